@@ -9,21 +9,6 @@ import Ggql.Props.C05Data
 import Ggql.Gen.Coerce
 namespace Ggql.Coerce
 
-/-- D15: `…Keep` arms leave the unconverted string in the response next to the error.
-    D16: narrowing conversions of resolver values are unchecked (wrap-around, truncation of
-         fractions, non-finite floats passed through, float32 overflow).
-    D48: unsigned 64-bit values ≥ 2^63 are printed as negative numbers by String / ID. -/
-def pinnedOut : Scalar → List (Kind × Action)
-  | .int => [(.f32, .conv .i32), (.f64, .conv .i32), (.i64, .conv .i32), (.int, .conv .i32),
-             (.str, .parseIntKeep .i32), (.u32, .conv .i32), (.u64, .conv .i32), (.uint, .conv .i32)]
-  | .int64 => [(.f32, .conv .i64), (.f64, .conv .i64), (.str, .parseIntKeep .i64), (.u64, .conv .i64), (.uint, .conv .i64)]
-  | .float => [(.f32, .asIs), (.f64, .conv .f32), (.str, .parseFloatKeep .f32)]
-  | .float64 => [(.f32, .conv .f64), (.f64, .asIs), (.str, .parseFloatKeep .f64)]
-  | .string => [(.u64, .fmtInt), (.uint, .fmtInt)]
-  | .id => [(.u64, .fmtInt), (.uint, .fmtInt)]
-  | .boolean => [(.str, .parseBoolKeep)]
-  | .time => [(.str, .timeParseKeep)]
-
 /-- D08: Int arguments are narrowed to 32 bits without a range check.
     D46: Float arguments: float64 → float32 overflow to ±Inf, non-finite values passed through. -/
 def pinnedIn : Scalar → List (Kind × Action)
@@ -44,32 +29,28 @@ def inTable : Scalar → Table
 
 def allScalars : List Scalar := [.int, .int64, .float, .float64, .string, .id, .boolean, .time]
 
-/-- **C05_tables.**  Every unsound `CoerceOut` arm of the current source is a pinned deviation, the
-default arm of every scalar rejects with null, and only the time scalar formats after the switch. -/
-theorem C05_tables :
-    allScalars.all (fun s =>
-      (unsoundOut s (outTable s)).all (fun p => (pinnedOut s).contains p) &&
-      ((outTable s).dflt == .failNil) && ((outTable s).formatTime == (s == .time))) = true := by decide
-
-/-- What is still unsound at the response level now that the leaf branch of `resolve` drops the value
-on a `CoerceOut` error (D15 repaired): D16 (unchecked narrowing, including Int ← numeric string beyond
-32 bits and Float ← "Inf"/"NaN" strings) and D48. -/
+/-- What is still unsound at the response level (the leaf branch of `resolve` drops the value on a
+`CoerceOut` error: D15 repaired; integer narrowings range-checked and String/ID ← unsigned printed
+unsigned: integer part of D16 and D48 repaired): the float arms of D16 — Int/Int64 ← float truncates
+fractions (pinned by the repository's own tests) and is unchecked for range, Float ← float64 may
+overflow to ±Inf, NaN/±Inf pass through, Float ← "Inf"/"NaN" strings. -/
 def pinnedOutR : Scalar → List (Kind × Action)
-  | .int => [(.f32, .conv .i32), (.f64, .conv .i32), (.i64, .conv .i32), (.int, .conv .i32),
-             (.str, .parseIntKeep .i32), (.u32, .conv .i32), (.u64, .conv .i32), (.uint, .conv .i32)]
-  | .int64 => [(.f32, .conv .i64), (.f64, .conv .i64), (.u64, .conv .i64), (.uint, .conv .i64)]
+  | .int => [(.f32, .conv .i32), (.f64, .conv .i32)]
+  | .int64 => [(.f32, .conv .i64), (.f64, .conv .i64)]
   | .float => [(.f32, .asIs), (.f64, .conv .f32), (.str, .parseFloatKeep .f32)]
   | .float64 => [(.f32, .conv .f64), (.f64, .asIs), (.str, .parseFloatKeep .f64)]
-  | .string => [(.u64, .fmtInt), (.uint, .fmtInt)]
-  | .id => [(.u64, .fmtInt), (.uint, .fmtInt)]
+  | .string => []
+  | .id => []
   | .boolean => []
   | .time => []
 
-/-- **C05_tables_resp.**  With the leaf branch as read from `resolve` on this run, every arm that is
-unsound at the response level is a pinned deviation. -/
-theorem C05_tables_resp :
+/-- **C05_tables.**  With the leaf branch as read from `resolve` on this run, every `CoerceOut` arm of the
+current source that is unsound at the response level is a pinned deviation, the default arm of every
+scalar rejects with null, and only the time scalar formats after the switch. -/
+theorem C05_tables :
     allScalars.all (fun s =>
-      (unsoundOutR Gen.leafErrNulls s (outTable s)).all (fun p => (pinnedOutR s).contains p)) = true := by decide
+      (unsoundOutR Gen.leafErrNulls s (outTable s)).all (fun p => (pinnedOutR s).contains p) &&
+      ((outTable s).dflt == .failNil) && ((outTable s).formatTime == (s == .time))) = true := by decide
 
 theorem outTable_formatTime (s : Scalar) : (outTable s).formatTime = (s == .time) := by
   cases s <;> decide
@@ -89,7 +70,9 @@ example : dataSound (F := Nat) outTable Gen.leafErrNulls Gen.fastSliceCopies (.l
     (.list [.leaf (.str "true"), .leaf (.str "nope"), .leaf .nil]) = true ∧
     dataSound (F := Nat) outTable Gen.leafErrNulls Gen.fastSliceCopies (.nonNull (.scalar .int64)) (.leaf (.str "x12")) = true ∧
     dataSound (F := Nat) outTable Gen.leafErrNulls Gen.fastSliceCopies (.list (.scalar .string))
-      (.slice .fast [.int .int 1, .int .int 2]) = true := by decide
+      (.slice .fast [.int .int 1, .int .u64 18446744073709551615]) = true ∧
+    dataSound (F := Nat) outTable Gen.leafErrNulls Gen.fastSliceCopies (.list (.scalar .int))
+      (.list [.leaf (.int .i64 1099511627776), .leaf (.str "4294967297"), .leaf (.int .u64 7)]) = true := by decide
 
 /-- **C04_tables.**  The same for `CoerceIn`. -/
 theorem C04_tables :
